@@ -31,16 +31,77 @@ COL_FRAMES = {'VEL_COLS': 'n', 'NED_COLS': 'n', 'RATE_COLS': 'b', 'GYRO_COLS': '
               'ACCEL_COLS': 'b', 'THETA_COLS': 'b', 'DV_COLS': 'b'}
 
 
+def _scalar_locals(fnode):
+    """locals every definition of which is a scalar: an element taken with a constant index, a
+    number, or arithmetic / an elementary function of such (a component named `v_e` is the east
+    component, not a vector in the ECEF frame - the suffix convention is about vectors)"""
+    defs = {}
+    for n in ast.walk(fnode):
+        if isinstance(n, ast.Assign) and len(n.targets) == 1:
+            t = n.targets[0]
+            if isinstance(t, ast.Name):
+                defs.setdefault(t.id, []).append(n.value)
+            elif isinstance(t, ast.Tuple) and isinstance(n.value, ast.Tuple) and \
+                    len(t.elts) == len(n.value.elts):
+                for a, b in zip(t.elts, n.value.elts):
+                    if isinstance(a, ast.Name):
+                        defs.setdefault(a.id, []).append(b)
+            elif isinstance(t, ast.Tuple):
+                for a in t.elts:
+                    if isinstance(a, ast.Name):
+                        defs.setdefault(a.id, []).append(None)
+        elif isinstance(n, (ast.AugAssign, ast.For, ast.With, ast.NamedExpr)):
+            for x in ast.walk(n.target if hasattr(n, 'target') else n):
+                if isinstance(x, ast.Name) and isinstance(x.ctx, ast.Store):
+                    defs.setdefault(x.id, []).append(None)
+    scal = set()
+
+    def is_scalar(e):
+        if e is None:
+            return False
+        if isinstance(e, ast.Constant):
+            return isinstance(e.value, (int, float)) and not isinstance(e.value, bool)
+        if isinstance(e, ast.Name):
+            return e.id in scal or (e.id.isupper() and e.id not in defs)
+        if isinstance(e, ast.Attribute) and e.attr.isupper() and isinstance(e.value, ast.Name):
+            return True          # a module constant (earth.RATE, transform.DEG_TO_RAD)
+        if isinstance(e, ast.Subscript):
+            sl = e.slice
+            last = sl.elts[-1] if isinstance(sl, ast.Tuple) and sl.elts else sl
+            allc = sl.elts if isinstance(sl, ast.Tuple) else [sl]
+            return isinstance(last, ast.Constant) and isinstance(last.value, int) and \
+                not any(isinstance(x, ast.Slice) for x in allc) and \
+                (len(allc) >= 2 or isinstance(e.value, ast.Name))
+        if isinstance(e, ast.UnaryOp):
+            return is_scalar(e.operand)
+        if isinstance(e, ast.BinOp) and not isinstance(e.op, ast.MatMult):
+            return is_scalar(e.left) and is_scalar(e.right)
+        if isinstance(e, ast.Call) and isinstance(e.func, ast.Attribute) and \
+                e.func.attr in ('sin', 'cos', 'tan', 'sqrt', 'deg2rad', 'rad2deg', 'abs',
+                                'hypot', 'arctan2', 'arcsin') and e.args:
+            return all(is_scalar(a) for a in e.args)
+        return False
+    for _ in range(200):
+        new = {nm for nm, vs in defs.items() if vs and all(is_scalar(v) for v in vs)}
+        if new == scal:
+            break
+        scal = new
+    return scal
+
+
 class _Typer:
     def __init__(self, ctx, f, alias):
         self.ctx, self.f, self.alias = ctx, f, alias
         self.n_def = 0
+        self.scalars = _scalar_locals(f.node)
 
     def canon(self, fr):
         fr = ALIAS.get(fr, fr)
         return self.alias.get(fr, fr)
 
     def name_type(self, name):
+        if name in self.scalars:
+            return None
         m = MAT_RE.match(name) or MSPLINE_RE.match(name)
         if m:
             return ('M', self.canon(m.group(1)), self.canon(m.group(2)))
@@ -175,10 +236,14 @@ def frame_suffix(ctx, modules=None):
     ctx.rule('FRAME-SUFFIX', 'frame suffixes (vec_a, mat_ab) are consistent through every '
              'product, transpose, cross product, sum and assignment')
     total = 0
+    from ..inline import PINNED_PRIVATE
     for f in ctx.repo.all_functions():
         short = f.module.name.split('.')[-1]
         if modules and short not in modules:
             continue
+        if f.name.startswith('_') and not f.name.startswith('__') and \
+                f.name not in PINNED_PRIVATE:
+            continue          # a helper introduced later: judged where it is inlined
         # recorded exception: generate_imu evaluates ECEF formulas at the inertially advanced
         # longitude, so inside it the ECEF frame plays the role of the inertial frame
         alias = {'e': 'i'} if f.name == 'generate_imu' else {}
